@@ -42,9 +42,9 @@ def step (c : FSClass) (s : FSet) : FSOp → FSet
   | .setFields ns ow => union (if ow then [] else s) ns
   | .unsetFields ns => diff s ns
   | .replace changes =>
-      -- `_replace`: defaulted InitVars are added to `changes`; the new instance gets
-      -- `set_fields(result, *fields_set(obj), *changes, overwrite=True)`
-      union (union [] s) (changes ++ c.initVarsWithDefault.filter (fun v => !changes.contains v))
+      -- `_replace`: the new instance gets `set_fields(result, *fields_set(obj), *changed fields, overwrite=True)`,
+      -- init variables (given or re-injected defaults) left out (repair of row 24)
+      union (union [] s) (changes.filter (fun v => !c.initVars.contains v))
 
 def runOps (c : FSClass) (s : FSet) (ops : List FSOp) : FSet := ops.foldl (step c) s
 
@@ -98,9 +98,13 @@ theorem C15_set (c : FSClass) (s : FSet) (ns : List String) (ow : Bool) (x : Str
     x ∈ step c s (.setFields ns ow) ↔ (ow = false ∧ x ∈ s) ∨ x ∈ ns := by
   cases ow <;> simp [step, mem_union]
 
-/-- finding 24: `replace` reports defaulted init variables as set fields -/
-theorem C15_replace_counterexample :
-    "d" ∈ step { params := ["a", "d"], initVars := ["d"], initVarsWithDefault := ["d"], postInit := [] }
+/-- `replace`: what was set stays set, the changed fields become set, init variables never do (row 24 repaired) -/
+theorem C15_replace (c : FSClass) (s : FSet) (changes : List String) (x : String) :
+    x ∈ step c s (.replace changes) ↔ x ∈ s ∨ (x ∈ changes ∧ x ∉ c.initVars) := by
+  simp [step, mem_union, List.mem_filter]
+
+/-- the witness of row 24 on the repaired machine -/
+example : "d" ∉ step { params := ["a", "d"], initVars := ["d"], initVarsWithDefault := ["d"], postInit := [] }
       [] (.replace ["a"]) := by decide
 
 #print axioms C15_deserialize
